@@ -147,7 +147,7 @@ func exec(op string) (res string) {
 		return execRetry(op)
 	case "walk":
 		return reduceWalk(execWalk(op))
-	case "walko":
+	case "walko", "walkc":
 		return execWalk(op)
 	case "first", "firstx":
 		return execFirst(op)
